@@ -55,7 +55,7 @@ var wrapKinds = []struct {
 	k string
 	n int // number of variants
 }{
-	{"if", 3}, {"switch", 2}, {"loop", 4}, {"try-body", 2}, {"catch", 2}, {"finally", 2},
+	{"if", 3}, {"switch", 2}, {"loop", 4}, {"try-body", 5}, {"catch", 2}, {"finally", 2},
 	{"func", 7}, {"funcvar", 2}, {"anon", 2}, {"module", 1}, {"go", 5}, {"defer", 3}, {"expr", 30}, {"hostcallback", 2},
 }
 
@@ -164,10 +164,18 @@ func wrap(w W, body, u string) string {
 			return "for true {\n" + body + "\n}"
 		}
 	case "try-body":
-		if w.A%2 == 0 {
+		switch w.A % 5 {
+		case 0:
 			return "try {\n" + body + "\n} catch e" + u + " { tick() }"
+		case 1:
+			return "try {\n" + body + "\n} catch { tick() } finally { tick() }"
+		case 2:
+			return "try {\n" + body + "\n} catch { }"
+		case 3:
+			return "try {\n" + body + "\n} catch e" + u + " { }"
+		default:
+			return "try {\n" + body + "\n} catch { } finally { }"
 		}
-		return "try {\n" + body + "\n} catch { tick() } finally { tick() }"
 	case "catch":
 		if w.A%2 == 0 {
 			return "try { throw \"x\" } catch e" + u + " {\n" + body + "\n}"
